@@ -1709,8 +1709,32 @@ fn resolve_names_typ(
             } else {
                 resolve_identifier(ctx, symbol_table, name);
             }
-            if let Some(decl) = ctx.resolution_map.get(&name.id) {
-                ctx.resolution_map.insert(typ.id, decl.clone());
+            if let Some(decl) = ctx.resolution_map.get(&name.id).cloned() {
+                // a type applied to the wrong number of arguments (`array<>`, `option<int, int>`) is reported here and
+                // then treated like a name that does not resolve, so that no ill-formed type reaches type inference
+                let expected = match &decl {
+                    Declaration::Struct(struct_def) => Some(struct_def.ty_args.len()),
+                    Declaration::Enum(enum_def) => Some(enum_def.ty_args.len()),
+                    Declaration::BuiltinType(BuiltinType::Array | BuiltinType::Channel) => Some(1),
+                    _ => None,
+                };
+                match expected {
+                    Some(n) if n != args.len() => {
+                        ctx.errors.push(Error::GenericWithNode {
+                            msg: format!(
+                                "Wrong number of type arguments: `{}` takes {} but {} were given",
+                                name.v,
+                                n,
+                                args.len()
+                            ),
+                            node: typ.node(),
+                        });
+                        ctx.resolution_map.remove(&name.id);
+                    }
+                    _ => {
+                        ctx.resolution_map.insert(typ.id, decl);
+                    }
+                }
             }
 
             for arg in args {
